@@ -32,7 +32,7 @@ where
 /*@*/         alg == Algorithm::Lcs ==> ((old_range.end - old_range.start) <= u32::MAX || (new_range.end - new_range.start) <= u32::MAX),   // lcs table cells are u32
 /*@*/     ensures
 /*@*/         err_post(*vstd::prelude::old(d), *final(d), res),
-/*@*/         seg_post(*vstd::prelude::old(d), *final(d), old, old_range, new, new_range, alg_lvl(None), false, fin::<D>(), res.is_ok()),
+/*@*/         seg_post(*vstd::prelude::old(d), *final(d), old, old_range, new, new_range, alg_lvl(None), alg != Algorithm::Patience, fin::<D>(), res.is_ok()),
 {
     diff_deadline(alg, d, old, old_range, new, new_range, None)
 }
@@ -58,7 +58,7 @@ where
 /*@*/         alg == Algorithm::Lcs ==> ((old_range.end - old_range.start) <= u32::MAX || (new_range.end - new_range.start) <= u32::MAX),   // lcs table cells are u32
 /*@*/     ensures
 /*@*/         err_post(*vstd::prelude::old(d), *final(d), res),
-/*@*/         seg_post(*vstd::prelude::old(d), *final(d), old, old_range, new, new_range, alg_lvl(deadline), false, fin::<D>(), res.is_ok()),
+/*@*/         seg_post(*vstd::prelude::old(d), *final(d), old, old_range, new, new_range, alg_lvl(deadline), deadline is None && alg != Algorithm::Patience, fin::<D>(), res.is_ok()),
 {
     match alg {
         Algorithm::Myers => myers::diff_deadline(d, old, old_range, new, new_range, deadline),
@@ -77,7 +77,7 @@ where
 /*@*/         alg == Algorithm::Lcs ==> (old.len() <= u32::MAX || new.len() <= u32::MAX),
 /*@*/     ensures
 /*@*/         err_post(*vstd::prelude::old(d), *final(d), res),
-/*@*/         seg_post(*vstd::prelude::old(d), *final(d), old, 0..old.len(), new, 0..new.len(), alg_lvl(None), false, fin::<D>(), res.is_ok()),
+/*@*/         seg_post(*vstd::prelude::old(d), *final(d), old, 0..old.len(), new, 0..new.len(), alg_lvl(None), alg != Algorithm::Patience, fin::<D>(), res.is_ok()),
 {
     diff(alg, d, old, 0..old.len(), new, 0..new.len())
 }
@@ -98,7 +98,7 @@ where
 /*@*/         alg == Algorithm::Lcs ==> (old.len() <= u32::MAX || new.len() <= u32::MAX),
 /*@*/     ensures
 /*@*/         err_post(*vstd::prelude::old(d), *final(d), res),
-/*@*/         seg_post(*vstd::prelude::old(d), *final(d), old, 0..old.len(), new, 0..new.len(), alg_lvl(deadline), false, fin::<D>(), res.is_ok()),
+/*@*/         seg_post(*vstd::prelude::old(d), *final(d), old, 0..old.len(), new, 0..new.len(), alg_lvl(deadline), deadline is None && alg != Algorithm::Patience, fin::<D>(), res.is_ok()),
 {
     diff_deadline(alg, d, old, 0..old.len(), new, 0..new.len(), deadline)
 }
